@@ -204,7 +204,34 @@ func c02RunFinisher(db *gorm.DB, ch *wChain, soft bool, fin string, pk int, rows
 			ids = []int{}
 		}
 		return ids, err
-	case "update", "delete", "updatepk", "deletepk":
+	case "firstpk", "takepk", "findpk":
+		// the key of the value handed to a read finisher
+		run := func(dst interface{}) *gorm.DB {
+			switch fin {
+			case "firstpk":
+				return ch.apply(base).First(dst)
+			case "takepk":
+				return ch.apply(base).Take(dst)
+			}
+			return ch.apply(base).Find(dst)
+		}
+		var res *gorm.DB
+		var id uint
+		if soft {
+			o := WSoft{ID: uint(pk)}
+			res = run(&o)
+			id = o.ID
+		} else {
+			o := WPlain{ID: uint(pk)}
+			res = run(&o)
+			id = o.ID
+		}
+		if res.Error == gorm.ErrRecordNotFound || res.Error == nil && res.RowsAffected == 0 {
+			return []int{}, nil
+		}
+		return []int{int(id)}, res.Error
+	case "update", "delete", "updatepk", "deletepk", "deletepk-model", "deletepk-both", "deletepk-same", "deletepk-unscoped", "deletepk-model-unscoped",
+		"updatespk-value", "updatecolumnpk", "deleteslice", "updateslice":
 		tx := base.Begin()
 		defer tx.Rollback()
 		var model interface{} = modelOf(soft)
@@ -215,11 +242,55 @@ func c02RunFinisher(db *gorm.DB, ch *wChain, soft bool, fin string, pk int, rows
 				model = &WPlain{ID: uint(pk)}
 			}
 		}
+		keyed := func(k int) interface{} {
+			if soft {
+				return &WSoft{ID: uint(k)}
+			}
+			return &WPlain{ID: uint(k)}
+		}
 		var err error
-		if strings.HasPrefix(fin, "update") {
-			err = ch.apply(tx.Model(model)).Update("b", 77).Error
-		} else {
-			err = ch.apply(tx).Delete(model).Error
+		switch fin {
+		case "deletepk-model":
+			// the key is given through Model(..), the deleted value is empty
+			err = ch.apply(tx.Model(model)).Delete(modelOf(soft)).Error
+		case "deletepk-both":
+			// the same key through Model(..) and through the deleted value (two distinct values)
+			err = ch.apply(tx.Model(model)).Delete(keyed(pk)).Error
+		case "deletepk-same":
+			err = ch.apply(tx.Model(model)).Delete(model).Error
+		case "deletepk-unscoped":
+			err = ch.apply(tx.Unscoped()).Delete(model).Error
+		case "deletepk-model-unscoped":
+			err = ch.apply(tx.Unscoped().Model(model)).Delete(modelOf(soft)).Error
+		case "updatespk-value":
+			// no Model(..): the updating value itself carries the key
+			v := 77
+			if soft {
+				err = ch.apply(tx).Updates(&WSoft{ID: uint(pk), B: &v}).Error
+			} else {
+				err = ch.apply(tx).Updates(&WPlain{ID: uint(pk), B: &v}).Error
+			}
+		case "updatecolumnpk":
+			err = ch.apply(tx.Model(model)).UpdateColumn("b", 77).Error
+		case "deleteslice", "updateslice":
+			// a slice value: its keys form ONE IN unit
+			var sl interface{}
+			if soft {
+				sl = &[]WSoft{{ID: uint(pk)}, {ID: uint(pk%len(rows) + 1)}}
+			} else {
+				sl = &[]WPlain{{ID: uint(pk)}, {ID: uint(pk%len(rows) + 1)}}
+			}
+			if fin == "deleteslice" {
+				err = ch.apply(tx).Delete(sl).Error
+			} else {
+				err = ch.apply(tx.Model(sl)).Update("b", 77).Error
+			}
+		default:
+			if strings.HasPrefix(fin, "update") {
+				err = ch.apply(tx.Model(model)).Update("b", 77).Error
+			} else {
+				err = ch.apply(tx).Delete(model).Error
+			}
 		}
 		if err != nil {
 			return nil, err
@@ -525,13 +596,18 @@ func c02One(r *Result, seedMark int64, soft bool) {
 		fins = append(fins, "inline")
 	}
 	pk := rows[rng.Intn(len(rows))].ID
-	fins = append(fins, "updatepk", "deletepk")
+	// the model value's key: through Model(..), through the finisher's value, through both, for reads and writes
+	fins = append(fins, "updatepk", "deletepk", "deletepk-model", "deletepk-both", "deletepk-same", "updatespk-value", "updatecolumnpk",
+		"firstpk", "takepk", "findpk")
+	if soft && prop != "C08" {
+		fins = append(fins, "deletepk-unscoped", "deletepk-model-unscoped")
+	}
 	for _, fin := range fins {
 		usePK := 0
-		if strings.HasSuffix(fin, "pk") {
+		if strings.Contains(fin, "pk") {
 			usePK = pk
 		}
-		accept, hasCond := wantIDs(w, ch, rows, soft, false, usePK)
+		accept, hasCond := wantIDs(w, ch, rows, soft, strings.HasSuffix(fin, "-unscoped"), usePK)
 		strict := accept[0]
 		if !hasCond && usePK == 0 && (strings.HasPrefix(fin, "update") || strings.HasPrefix(fin, "delete")) {
 			continue // no effective condition: C09's territory
@@ -577,6 +653,18 @@ func c02One(r *Result, seedMark int64, soft bool) {
 		}
 		if accepted(got, accept, fin == "count") {
 			continue
+		}
+		if fin == "firstpk" || fin == "takepk" || fin == "findpk" {
+			// one row comes back: it must be one the reading permits (none when that set is empty)
+			ok := false
+			for _, a := range accept {
+				if len(got) == 0 && len(a) == 0 || len(got) == 1 && len(a) > 0 && sort.SearchInts(a, got[0]) < len(a) && a[sort.SearchInts(a, got[0])] == got[0] {
+					ok = true
+				}
+			}
+			if ok {
+				continue
+			}
 		}
 		id, isListed := c02Classify(flags)
 		if id != "" && isListed {
@@ -706,7 +794,7 @@ func c02Composite(r *Result, seed int64) {
 		}
 		return out
 	}
-	for _, fin := range []string{"update", "updates-map", "updatecolumn", "delete", "first"} {
+	for _, fin := range []string{"update", "updates-map", "updatecolumn", "updates-value", "delete", "delete-model", "delete-both", "delete-same", "first", "take"} {
 		tx := db.Begin()
 		var got []string
 		var err error
@@ -720,12 +808,34 @@ func c02Composite(r *Result, seed int64) {
 		case "updatecolumn":
 			err = ch.apply(tx.Model(model())).UpdateColumn("b", 77).Error
 			got = changed(tx, false)
+		case "updates-value":
+			// no Model(..): the updating value carries the (composite) key
+			v := 77
+			m := model()
+			m.B = &v
+			err = ch.apply(tx).Updates(m).Error
+			got = changed(tx, false)
 		case "delete":
 			err = ch.apply(tx).Delete(model()).Error
 			got = changed(tx, true)
-		case "first":
+		case "delete-model":
+			// the key through Model(..) only
+			err = ch.apply(tx.Model(model())).Delete(&WComp{}).Error
+			got = changed(tx, true)
+		case "delete-both":
+			err = ch.apply(tx.Model(model())).Delete(model()).Error
+			got = changed(tx, true)
+		case "delete-same":
 			m := model()
-			err = ch.apply(tx).First(m).Error
+			err = ch.apply(tx.Model(m)).Delete(m).Error
+			got = changed(tx, true)
+		case "first", "take":
+			m := model()
+			if fin == "first" {
+				err = ch.apply(tx).First(m).Error
+			} else {
+				err = ch.apply(tx).Take(m).Error
+			}
 			if err == gorm.ErrRecordNotFound {
 				err, got = nil, []string{}
 			} else if err == nil {
@@ -739,7 +849,7 @@ func c02Composite(r *Result, seed int64) {
 			r.H("pk-composite.error", trunc(err.Error(), 40))
 			continue
 		}
-		if fin == "first" {
+		if fin == "first" || fin == "take" {
 			// First returns one row: it must be one the key reading permits (or none when that set is empty)
 			ok := false
 			for _, a := range accept {
